@@ -138,7 +138,10 @@ def build(plan):
             if ref.get("app_arg") == name:
                 app = ref["app"] if ref["app"] is not None else CALLER_APP
                 a = Abs.of(acn, app.to_bytes(4, "big"), app.to_bytes(4, "big"))
-            if acn in absavp.GENERATES_FROM_STR and plan.variant == 0:
+            if ref.get("app_arg") == name and getattr(plan, "app_raw", None) is not None:
+                kwargs[name] = plan.app_raw[0]         # the application given in another form (int / bytes)
+                expected.append((name, None, acn))
+            elif acn in absavp.GENERATES_FROM_STR and plan.variant == 0:
                 kwargs[name] = "verif.example"
                 expected.append((name, None, acn))
             else:
@@ -307,6 +310,27 @@ def table_facts(rep):
                     rep.violation(f"C09:{key}:argument-table:{arg}",
                                   f"{key}.{table_name}['{arg}'] is {klass.__name__}, the argument denotes "
                                   f"{convention_class(arg)}", {"part": "table", "cls": key})
+    # the application given through the constructor as int or bytes, zero or not: P flag exactly when non-zero
+    for key, ref in REFCMDS.items():
+        if not ref.get("app_arg") or key not in classes:
+            continue
+        for raw, value in ((0, 0), (bytes(4), 0), (7, 7), ((7).to_bytes(4, "big"), 7)):
+            n += 1
+            plan = Plan(key, classes[key], set(), 0, 0)
+            plan.app_raw = (raw,)
+            try:
+                msg, _e, _h = build(plan)
+            except BaseException as e:  # noqa
+                import bromelia.exceptions as X
+                if not (value == 0 and type(e).__module__ == X.__name__):     # refusing application 0 is fine
+                    rep.violation(f"C09:{key}:application-argument-raises-{type(e).__name__}", f"{key}({ref['app_arg']}={raw!r}): {e}",
+                                  {"part": "table", "cls": key})
+                continue
+            got_app, p_flag = msg.header.get_application_id(), bool(msg.header.get_flags() & 0x40)
+            if got_app != value or p_flag != (value != 0):
+                rep.violation(f"C09:{key}:p-flag-vs-application:{type(raw).__name__}-{value}",
+                              f"{key}({ref['app_arg']}={raw!r}): Application-ID {got_app}, P flag {p_flag}",
+                              {"part": "table", "cls": key})
     # a constructor argument for which the dictionary has a class (by the naming convention) is a legitimate
     # argument: a plain value for it must be carried by that class, so it must be in one of the two tables
     from bromelia.base import DiameterAVP
